@@ -45,3 +45,669 @@ def repo_functions(include_tests=True):
                         stack.append((child, q + '.'))
                     else:
                         stack.append((child, prefix))
+
+
+# =================================================================================================
+# Executable programs
+# =================================================================================================
+import hashlib, importlib.util, itertools, random, sys, tempfile, shutil
+
+PRELUDE = '''\
+LOG = []
+DEC = []
+def tr(tag, *vals):
+    """external tracer: logs the call, returns its first value (or the tag)"""
+    LOG.append(('tr', tag) + tuple(_freeze(v) for v in vals))
+    return vals[0] if vals else tag
+def _freeze(v):
+    if isinstance(v, list):
+        return ('list',) + tuple(_freeze(x) for x in v)
+    if isinstance(v, tuple):
+        return tuple(_freeze(x) for x in v)
+    if isinstance(v, dict):
+        return ('dict',) + tuple(sorted((k, _freeze(x)) for k, x in v.items()))
+    if isinstance(v, (int, float, str, bool, type(None))):
+        return v
+    return type(v).__name__
+def d():
+    """external decision: pops the next decision (False when exhausted), logs it"""
+    v = DEC.pop(0) if DEC else 0
+    LOG.append(('d', v))
+    return bool(v)
+def n():
+    """external trip count: pops the next decision as a small range"""
+    v = DEC.pop(0) if DEC else 0
+    LOG.append(('n', v))
+    return range(int(v) % 3)
+class cm(object):
+    def __init__(self, tag):
+        self.tag = tag
+    def __enter__(self):
+        LOG.append(('enter', self.tag))
+        return self.tag
+    def __exit__(self, *exc):
+        LOG.append(('exit', self.tag, exc[0].__name__ if exc[0] else None))
+        return False
+class E1(Exception):
+    pass
+class E2(Exception):
+    pass
+G = 0
+'''
+
+
+class Program(object):
+    def __init__(self, source, inputs, features, kind, decisions=None, meta=None):
+        self.source = source
+        self.fname = 'f'
+        self.inputs = inputs
+        self.decisions = decisions or [[]]     # decision vectors for d()/n()
+        self.features = set(features)
+        self.kind = kind
+        self.meta = meta or {}
+        self.key = kind[0] + hashlib.sha1(source.encode()).hexdigest()[:10]
+
+    def to_json(self):
+        return {'source': self.source, 'inputs': [list(i) for i in self.inputs], 'decisions': self.decisions,
+                'features': sorted(self.features), 'kind': self.kind, 'key': self.key}
+
+    @staticmethod
+    def from_json(j):
+        return Program(j['source'], [tuple(i) for i in j['inputs']], j.get('features', []), j.get('kind', 'replay'),
+                       j.get('decisions'))
+
+    def function_source(self):
+        """source of `f` alone (without the prelude)"""
+        return self.source[len(PRELUDE):]
+
+
+class Workspace(object):
+    """Temporary package directory: programs are written to real files so that inspect.getsource works."""
+
+    def __init__(self):
+        self.dir = tempfile.mkdtemp(prefix='maltverif_')
+        self.n = 0
+
+    def load(self, prog):
+        self.n += 1
+        name = 'mvp_%s_%d' % (prog.key, self.n)
+        path = os.path.join(self.dir, name + '.py')
+        with open(path, 'w') as f:
+            f.write(prog.source)
+        spec = importlib.util.spec_from_file_location(name, path)
+        mod = importlib.util.module_from_spec(spec)
+        sys.modules[name] = mod
+        spec.loader.exec_module(mod)
+        return mod
+
+    def unload(self, mod):
+        sys.modules.pop(mod.__name__, None)
+
+    def close(self):
+        shutil.rmtree(self.dir, ignore_errors=True)
+
+    def __enter__(self):
+        return self
+
+    def __exit__(self, *a):
+        self.close()
+
+
+def run_program(mod, fn, args, decisions=()):
+    """Run fn(*args) in module `mod` with a fresh log/decision list; returns (outcome, log, G).
+    outcome = ('ret', frozen value) | ('exc', exception type name)."""
+    mod.LOG[:] = []
+    mod.DEC[:] = list(decisions)
+    g0 = getattr(mod, 'G', None)
+    mod.G = 0
+    try:
+        r = fn(*[list(a) if isinstance(a, list) else a for a in args])
+        out = ('ret', mod._freeze(r))
+    except RecursionError:
+        raise
+    except Exception as e:  # noqa
+        out = ('exc', 'NameError' if isinstance(e, NameError) else type(e).__name__)
+    log = list(mod.LOG)
+    g = mod.G
+    mod.G = g0
+    return out, log, g
+
+
+# -------------------------------------------------------------------------------------------------
+# bounded-exhaustive control-flow skeletons
+# -------------------------------------------------------------------------------------------------
+_memo = {}
+
+
+def _stmts(n, depth, inloop, infin, rich):
+    """All statement skeletons of exactly n statement units. A skeleton is a nested tuple."""
+    key = ('s', n, depth, inloop, infin, rich)
+    if key in _memo:
+        return _memo[key]
+    out = []
+    if n == 1:
+        out.append(('s',))
+    if n >= 2 and depth > 0:
+        for n1 in range(1, n):
+            n2 = n - 1 - n1
+            for b in _blocks(n1, depth - 1, inloop, infin, rich):
+                if n2 == 0:
+                    out.append(('if', b, ()))
+                else:
+                    for e in _blocks(n2, depth - 1, inloop, infin, rich):
+                        out.append(('if', b, e))
+        for b in _blocks(n - 1, depth - 1, True, False, rich):
+            out.append(('while', b))
+            out.append(('for', b))
+        for b in _blocks(n - 1, depth - 1, inloop, infin, rich):
+            out.append(('with', b))
+        for b in _blocks(n - 1, depth - 1, False, False, rich):
+            out.append(('def', b))
+        # try: body + (handler | finally | both)
+        for n1 in range(1, n - 1):
+            rest = n - 1 - n1
+            for b in _blocks(n1, depth - 1, inloop, infin, rich):
+                for h in _blocks(rest, depth - 1, inloop, infin, rich):
+                    out.append(('try', b, h, None))
+                for fb in _blocks(rest, depth - 1, False, True, rich):
+                    out.append(('try', b, None, fb))
+                if rich:
+                    for n2 in range(1, rest):
+                        for h in _blocks(n2, depth - 1, inloop, infin, rich):
+                            for fb in _blocks(rest - n2, depth - 1, False, True, rich):
+                                out.append(('try', b, h, fb))
+    _memo[key] = out
+    return out
+
+
+def _jumps(inloop, infin):
+    js = [('raise1',), ('raise2',)]
+    if not infin:
+        js.append(('ret',))
+        if inloop:
+            js += [('brk',), ('cont',)]
+    elif inloop:
+        js += [('brk',), ('cont',)]
+    return js
+
+
+def _blocks(n, depth, inloop, infin, rich):
+    """All blocks (tuples of statements) with exactly n units; a jump may only be the last statement."""
+    key = ('b', n, depth, inloop, infin, rich)
+    if key in _memo:
+        return _memo[key]
+    out = []
+    if n == 0:
+        _memo[key] = [()]
+        return _memo[key]
+    # last statement is a jump (1 unit) or a normal statement
+    for k in range(1, n + 1):       # size of the first statement
+        for first in _stmts(k, depth, inloop, infin, rich):
+            if k == n:
+                out.append((first,))
+            else:
+                for rest in _blocks(n - k, depth, inloop, infin, rich):
+                    out.append((first,) + rest)
+    for j in _jumps(inloop, infin):
+        if n == 1:
+            out.append((j,))
+    # (jump as last statement after other statements is covered by the recursion: rest may be a 1-unit jump block)
+    _memo[key] = out
+    return out
+
+
+class _Render(object):
+    def __init__(self, rng, init=True):
+        self.rng = rng
+        self.init = init
+        self.k = 0
+        self.lines = []
+        self.features = set()
+        self.nfn = 0
+
+    def slot(self):
+        self.k += 1
+        return self.k
+
+    def simple(self, ind):
+        k = self.slot()
+        v, w = self.rng.choice(['x', 'y', 'z']), self.rng.choice(['x', 'y', 'z'])
+        form = self.rng.randrange(5)
+        if form == 0:
+            s = '%s = tr(%d)' % (v, k)
+        elif form == 1:
+            s = '%s = tr(%d, %s)' % (v, k, w)
+        elif form == 2:
+            s = 'tr(%d, %s)' % (k, v)
+        elif form == 3:
+            s = '%s += tr(%d)' % (v, k); self.features.add('augassign')
+        else:
+            s = '%s = %s + tr(%d)' % (v, w, k)
+        self.lines.append(ind + s)
+
+    def block(self, b, ind):
+        if not b:
+            self.lines.append(ind + 'pass')
+            return
+        for s in b:
+            self.stmt(s, ind)
+
+    def stmt(self, s, ind):
+        t = s[0]
+        self.features.add(t)
+        L = self.lines
+        if t == 's':
+            self.simple(ind)
+        elif t == 'ret':
+            L.append(ind + 'return tr(%d, %s)' % (self.slot(), self.rng.choice(['x', 'y', 'z'])))
+        elif t == 'raise1':
+            L.append(ind + 'raise E1(tr(%d))' % self.slot())
+        elif t == 'raise2':
+            L.append(ind + 'raise E2(tr(%d))' % self.slot())
+        elif t == 'brk':
+            L.append(ind + 'break')
+        elif t == 'cont':
+            L.append(ind + 'continue')
+        elif t == 'if':
+            L.append(ind + 'if d():')
+            self.block(s[1], ind + '    ')
+            if s[2]:
+                L.append(ind + 'else:')
+                self.block(s[2], ind + '    ')
+        elif t == 'while':
+            L.append(ind + 'while d():')
+            self.block(s[1], ind + '    ')
+        elif t == 'for':
+            tv = self.rng.choice(['i', 'x', 'j'])
+            L.append(ind + 'for %s in n():' % tv)
+            self.block(s[1], ind + '    ')
+        elif t == 'with':
+            k = self.slot()
+            if self.rng.random() < 0.4:
+                L.append(ind + 'with cm(%d) as %s:' % (k, self.rng.choice(['x', 'y', 'w'])))
+            else:
+                L.append(ind + 'with cm(%d):' % k)
+            self.block(s[1], ind + '    ')
+        elif t == 'def':
+            self.nfn += 1
+            g = 'g%d' % self.nfn
+            L.append(ind + 'def %s():' % g)
+            mode = self.rng.randrange(3) if self.init else self.rng.choice([0, 2])
+            if mode == 0:
+                L.append(ind + '    nonlocal x'); self.features.add('nonlocal')
+            elif mode == 1:
+                L.append(ind + '    nonlocal x, y'); self.features.add('nonlocal')
+            self.block(s[1], ind + '    ')
+            L.append(ind + '%s = %s()' % (self.rng.choice(['y', 'z', 'w']), g))
+        elif t == 'try':
+            L.append(ind + 'try:')
+            self.block(s[1], ind + '    ')
+            if s[2] is not None:
+                L.append(ind + 'except E1:')
+                self.block(s[2], ind + '    ')
+            if s[3] is not None:
+                self.features.add('finally')
+                L.append(ind + 'finally:')
+                self.block(s[3], ind + '    ')
+        else:
+            raise ValueError(t)
+
+
+def _ends_in_jump(b):
+    return bool(b) and b[-1][0] in ('ret', 'raise1', 'raise2', 'brk', 'cont')
+
+
+def render_skeleton(skel, rng, init=True):
+    r = _Render(rng, init)
+    r.lines.append('def f(a, b, c):')
+    if init:
+        r.lines.append('    x = a')
+        r.lines.append('    y = b')
+        r.lines.append('    z = c')
+        r.lines.append('    w = 0')
+        r.lines.append('    i = 0')
+        r.lines.append('    j = 0')
+    else:
+        # deliberately possibly-unbound: only x is initialised
+        r.lines.append('    x = a')
+    r.block(skel, '    ')
+    vs = r.rng.sample(['x', 'y', 'z', 'w', 'i'], r.rng.randrange(1, 4))
+    r.lines.append('    return tr(0, %s)' % ', '.join(vs))
+    return '\n'.join(r.lines) + '\n', r.features
+
+
+def skeleton_space(max_stmts, max_depth, rich=False):
+    """List of all skeleton blocks with 1..max_stmts units."""
+    out = []
+    for n in range(1, max_stmts + 1):
+        out.extend(_blocks(n, max_depth, False, False, rich))
+    return out
+
+
+def decision_vectors(rng, count, length=8):
+    vs = [[0] * length, [1] * length, [1, 0] * (length // 2), [2, 1, 1, 0, 1, 2, 0, 1][:length]]
+    while len(vs) < count:
+        vs.append([rng.randrange(3) for _ in range(length)])
+    return vs[:count]
+
+
+def skeleton_programs(max_stmts=4, max_depth=3, cap=None, rng=None, rich=False, unbound_fraction=0.15, info=None):
+    """Bounded-exhaustive control-flow skeletons (every nesting of if/while/for/with/try-except-finally/
+    nested def with break/continue/return/raise where legal), walked in a fixed canonical order.  When the
+    space is larger than `cap` it is stride-sampled with a seed-derived offset.  `info` (dict) receives the
+    size of the space, the cap and whether the walk was exhaustive."""
+    rng = rng or random.Random(0)
+    space = skeleton_space(max_stmts, max_depth, rich)
+    n = len(space)
+    if cap is None or n <= cap:
+        idxs = range(n)
+        exhaustive = True
+    else:
+        stride = n // cap
+        off = rng.randrange(stride)
+        idxs = range(off, n, stride)
+        exhaustive = False
+    if info is not None:
+        info.update({'space': n, 'cap': cap, 'exhaustive': exhaustive, 'max_stmts': max_stmts, 'max_depth': max_depth})
+    for ix in idxs:
+        sk = space[ix]
+        prng = random.Random((rng.getrandbits(32) << 20) ^ ix)
+        init = prng.random() >= unbound_fraction
+        src, feats = render_skeleton(sk, prng, init=init)
+        if not init:
+            feats.add('maybe_unbound')
+        yield Program(PRELUDE + src, [(1, 2, 3), (0, -1, 5)], feats, 'skeleton',
+                      decisions=decision_vectors(prng, 6), meta={'index': ix, 'skeleton': repr(sk)})
+
+
+# -------------------------------------------------------------------------------------------------
+# typed random programs of the C01 class
+# -------------------------------------------------------------------------------------------------
+RANDOM_PRELUDE = PRELUDE + '''\
+import functools
+def h(v):
+    tr('h', v)
+    if v > 3:
+        return v - 1
+    return v + 2
+def h2(u, v=1):
+    r = 0
+    for q in range(v % 3):
+        r += u
+    return tr('h2', r)
+class Obj(object):
+    def __init__(self, v):
+        self.v = v
+    def m(self, k):
+        tr('m', self.v, k)
+        self.v += k
+        return self.v
+hp = functools.partial(h2, v=2)
+'''
+
+
+class _Gen(object):
+    """Generates one function `f(a, b, c, l)`: a, b, c ints, l a list of ints (mutable argument)."""
+
+    def __init__(self, rng, size, profile):
+        self.rng = rng
+        self.budget = size
+        self.profile = profile
+        self.k = 0
+        self.nw = 0
+        self.nfn = 0
+        self.features = set()
+        self.ivars = ['x', 'y', 'z', 'w']
+        self.lines = []
+        self.uses_obj = False
+        self.loopdepth = 0
+
+    def slot(self):
+        self.k += 1
+        return self.k
+
+    # ---- expressions
+    def iexpr(self, depth=2):
+        r = self.rng
+        c = r.random()
+        if depth <= 0 or c < 0.3:
+            return r.choice(self.ivars + ['a', 'b', 'c', str(r.randrange(-2, 6))])
+        if c < 0.5:
+            if r.random() < 0.2:
+                return '%s * %d' % (self.iexpr(depth - 1), r.randrange(-1, 4))
+            return '%s %s %s' % (self.iexpr(depth - 1), r.choice(['+', '-']), self.iexpr(depth - 1))
+        if c < 0.62:
+            return 'tr(%d, %s)' % (self.slot(), self.iexpr(depth - 1))
+        if c < 0.70:
+            self.features.add('ifexp')
+            return '(%s if %s else %s)' % (self.iexpr(depth - 1), self.bexpr(depth - 1), self.iexpr(depth - 1))
+        if c < 0.78:
+            self.features.add('builtin')
+            return r.choice(['abs(%s)', 'int(%s)', 'max(%s, 1)', 'len(l) + %s']) % self.iexpr(depth - 1)
+        if c < 0.86:
+            self.features.add('usercall')
+            return r.choice(['h(%s)', 'h2(%s)', 'h2(%s, v=2)', 'hp(%s)']) % self.iexpr(depth - 1)
+        if c < 0.90:
+            self.features.add('method'); self.uses_obj = True
+            return 'o.m(%s)' % self.iexpr(depth - 1)
+        if c < 0.94:
+            self.features.add('lambda')
+            return '(lambda q: q + %s)(%s)' % (r.choice(self.ivars), self.iexpr(depth - 1))
+        if c < 0.97:
+            self.features.add('comprehension')
+            return 'sum([tr(%d, q) for q in l if q > %s])' % (self.slot(), r.choice(['0', 'a', '1']))
+        return '(-%s)' % self.iexpr(depth - 1)
+
+    def bexpr(self, depth=2):
+        r = self.rng
+        c = r.random()
+        if depth <= 0 or c < 0.35:
+            return '%s %s %s' % (self.iexpr(depth - 1), r.choice(['<', '>', '==', '!=', '<=']), self.iexpr(depth - 1))
+        if c < 0.5:
+            self.features.add('and')
+            return '(%s and %s)' % (self.bexpr(depth - 1), self.bexpr(depth - 1))
+        if c < 0.65:
+            self.features.add('or')
+            return '(%s or %s)' % (self.bexpr(depth - 1), self.bexpr(depth - 1))
+        if c < 0.75:
+            self.features.add('not')
+            return '(not %s)' % self.bexpr(depth - 1)
+        if c < 0.85:
+            self.features.add('chained_compare')
+            return '%s < %s <= %s' % (self.iexpr(0), self.iexpr(depth - 1), self.iexpr(0))
+        if c < 0.93:
+            return 'd()'
+        return 'tr(%d, %s) > 0' % (self.slot(), self.iexpr(depth - 1))
+
+    # ---- statements
+    def emit(self, ind, s):
+        self.lines.append(ind + s)
+
+    def block(self, ind, depth, inloop, infin, minlen=1):
+        nst = self.rng.randrange(minlen, 4)
+        for _ in range(nst):
+            if self.budget <= 0:
+                break
+            self.stmt(ind, depth, inloop, infin)
+        if self.lines[-1].endswith(':'):
+            self.emit(ind, 'pass')
+
+    def stmt(self, ind, depth, inloop, infin):
+        r = self.rng
+        self.budget -= 1
+        c = r.random()
+        v = r.choice(self.ivars)
+        F = self.features
+        n0 = len(self.lines)
+        if depth <= 0 or c < 0.28:
+            form = r.randrange(8)
+            if form == 0:
+                self.emit(ind, '%s = %s' % (v, self.iexpr()))
+            elif form == 1:
+                F.add('augassign'); self.emit(ind, '%s %s= %s' % (v, r.choice(['+', '-', '+']), self.iexpr(1)))
+            elif form == 2:
+                F.add('tuple_assign'); self.emit(ind, '%s, %s = %s, %s' % (v, r.choice(self.ivars), self.iexpr(1), self.iexpr(1)))
+            elif form == 3:
+                self.emit(ind, 'tr(%d, %s)' % (self.slot(), self.iexpr(1)))
+            elif form == 4:
+                F.add('subscript_store'); self.emit(ind, 'l[0] = %s' % self.iexpr(1))
+            elif form == 5 and self.loopdepth == 0:
+                F.add('method'); self.emit(ind, 'l.append(%s)' % self.iexpr(1))
+            elif form == 5:
+                self.emit(ind, '%s = %s' % (v, self.iexpr()))
+            elif form == 6:
+                F.add('attr_store'); self.uses_obj = True; self.emit(ind, 'o.v = %s' % self.iexpr(1))
+            else:
+                F.add('global'); self.emit(ind, 'G = G + %s' % self.iexpr(1)); self.uses_global = True
+            return
+        if c < 0.46:
+            F.add('if')
+            self.emit(ind, 'if %s:' % self.bexpr())
+            self.block(ind + '    ', depth - 1, inloop, infin)
+            m = r.random()
+            if m < 0.3:
+                F.add('elif')
+                self.emit(ind, 'elif %s:' % self.bexpr(1))
+                self.block(ind + '    ', depth - 1, inloop, infin)
+            if m < 0.6:
+                self.emit(ind, 'else:')
+                self.block(ind + '    ', depth - 1, inloop, infin)
+            return
+        if c < 0.56:
+            F.add('while')
+            self.nw += 1
+            wv = 'n%d' % self.nw
+            self.emit(ind, '%s = 0' % wv)
+            self.emit(ind, 'while %s < %d and %s:' % (wv, r.randrange(1, 4), self.bexpr(1)))
+            self.emit(ind + '    ', '%s += 1' % wv)
+            self.loopdepth += 1
+            self.block(ind + '    ', depth - 1, True, False)
+            self.loopdepth -= 1
+            return
+        if c < 0.70:
+            F.add('for')
+            form = r.randrange(5)
+            if form == 0:
+                self.emit(ind, 'for %s in range(%s):' % (r.choice(['i', 'j', v]), r.choice(['2', '3', 'a % 3', 'len(l)', '0'])))
+            elif form == 1:
+                self.emit(ind, 'for %s in l:' % r.choice(['i', 'j', v]))
+            elif form == 2:
+                F.add('for_tuple_target')
+                self.emit(ind, 'for i, %s in [(1, a), (2, b)]:' % v)
+            elif form == 3:
+                F.add('for_tuple_target'); F.add('builtin')
+                self.emit(ind, 'for i, %s in enumerate(l):' % v)
+            else:
+                F.add('for_iterator')
+                self.emit(ind, 'for %s in iter((a, b, c)):' % r.choice(['i', v]))
+            self.loopdepth += 1
+            self.block(ind + '    ', depth - 1, True, False)
+            self.loopdepth -= 1
+            return
+        if c < 0.76 and inloop:
+            F.add('break' if r.random() < 0.5 else 'continue')
+            kw = 'break' if 'break' in F and r.random() < 0.5 else 'continue'
+            F.add(kw)
+            self.emit(ind, 'if %s:' % self.bexpr(1))
+            self.emit(ind + '    ', kw)
+            return
+        if c < 0.82 and not infin:
+            F.add('return')
+            self.emit(ind, 'if %s:' % self.bexpr(1))
+            self.emit(ind + '    ', 'return %s' % r.choice([self.iexpr(1), '(%s, %s)' % (v, self.iexpr(0)), '']))
+            return
+        if c < 0.90:
+            F.add('try')
+            self.emit(ind, 'try:')
+            self.block(ind + '    ', depth - 1, inloop, infin)
+            if r.random() < 0.6:
+                F.add('raise')
+                self.emit(ind + '    ', 'if %s:' % self.bexpr(1))
+                self.emit(ind + '        ', 'raise %s(tr(%d))' % (r.choice(['E1', 'E1', 'E2']), self.slot()))
+            m = r.random()
+            if m < 0.75:
+                self.emit(ind, 'except E1:')
+                self.block(ind + '    ', depth - 1, inloop, infin)
+            if m >= 0.75 or r.random() < 0.35:
+                F.add('finally')
+                self.emit(ind, 'finally:')
+                self.block(ind + '    ', depth - 1, False, True)
+            return
+        if c < 0.94:
+            F.add('with')
+            k = self.slot()
+            self.emit(ind, r.choice(['with cm(%d):' % k, 'with cm(%d) as %s:' % (k, v)]))
+            self.block(ind + '    ', depth - 1, inloop, infin)
+            return
+        if c < 0.985:
+            F.add('nested_def')
+            self.nfn += 1
+            g = 'g%d' % self.nfn
+            p = r.choice(['', 'p', 'p, q=1'])
+            self.emit(ind, 'def %s(%s):' % (g, p))
+            if r.random() < 0.5:
+                F.add('nonlocal')
+                self.emit(ind + '    ', 'nonlocal %s' % v)
+                self.emit(ind + '    ', '%s = %s' % (v, self.iexpr(1)))
+            self.block(ind + '    ', depth - 1, False, False)
+            self.emit(ind + '    ', 'return %s' % self.iexpr(1))
+            call = '%s(%s)' % (g, '' if not p else self.iexpr(1))
+            if r.random() < 0.5:
+                self.emit(ind, '%s = %s' % (r.choice(self.ivars), call))
+            else:
+                # call later, from another statement
+                self.stmt(ind, 0, inloop, infin)
+                self.emit(ind, '%s = %s' % (r.choice(self.ivars), call))
+            return
+        F.add('del')
+        self.emit(ind, 'del %s' % v)
+        self.emit(ind, '%s = %s' % (v, self.iexpr(1)))
+
+
+def random_program(rng, size=12, profile='c01'):
+    g = _Gen(rng, size, profile)
+    g.uses_global = False
+    body_ind = '    '
+    # definitely-assigned with probability 0.8
+    da = rng.random() < 0.8
+    g.emit(body_ind, 'x = a')
+    if da:
+        g.emit(body_ind, 'y = b')
+        g.emit(body_ind, 'z = c')
+        g.emit(body_ind, 'w = 0')
+        g.emit(body_ind, 'i = 0')
+        g.emit(body_ind, 'j = 0')
+    else:
+        g.features.add('maybe_unbound')
+        g.emit(body_ind, 'y = b')
+        for nm, init in rng.sample([('z', 'c'), ('w', '0'), ('i', '0'), ('j', '0')], 2):
+            g.emit(body_ind, '%s = %s' % (nm, init))
+    mark = len(g.lines)
+    while g.budget > 0:
+        g.stmt(body_ind, 3, False, False)
+    g.emit(body_ind, 'return %s' % rng.choice(['x', '(x, y)', 'x + y', '(x, y, z, w)', 'tr(0, x, y, z)']))
+    head = ['def f(a, b, c, l):']
+    if g.uses_global:
+        head.append('    global G')
+    if g.uses_obj:
+        g.lines.insert(0, '    o = Obj(a)')
+    src = '\n'.join(head + g.lines) + '\n'
+    inputs = [(1, 2, 3, [1, 2]), (0, 0, 0, [0]), (-1, 5, 2, [3, -1, 4]), (4, 1, 0, [2]),
+              (rng.randrange(-3, 6), rng.randrange(-3, 6), rng.randrange(-3, 6), [rng.randrange(-2, 5) for _ in range(rng.randrange(1, 4))])]
+    return Program(RANDOM_PRELUDE + src, inputs, g.features, 'random',
+                   decisions=decision_vectors(random.Random(rng.getrandbits(30)), 3))
+
+
+def random_programs(rng, n, size=12, profile='c01'):
+    """Typed random programs of the C01 class, mostly valid by construction (all loops bounded; variables
+    definitely assigned with probability 0.8; side effects only through tr/cm/d, the mutable argument `l`,
+    the module global `G` and the object `o`).  Programs that fail to compile are discarded (counted by caller)."""
+    made = 0
+    while made < n:
+        p = random_program(rng, size=rng.randrange(max(3, size // 2), size + 1), profile=profile)
+        try:
+            compile(p.source, '<gen>', 'exec')
+        except SyntaxError:
+            continue
+        made += 1
+        yield p
